@@ -56,8 +56,8 @@ Ltac norm :=
   repeat (rewrite ?completed_app, ?completed_drop, ?queued_app, ?completed_cons, ?queued_cons,
                   ?wire_ids_app, ?wire_ids_drop, ?wire_ids_cons, ?stamps_app, ?stamps_drop, ?stamps_cons,
                   ?listens_app, ?listens_drop, ?listens_cons, ?app_nil_r, <- ?app_assoc;
-          cbn [app inflight inflight_req map fst snd ph queue blocked txid handles enabled tcount retry decode now partial wfail wdelay
-               set_ph set_chan set_handles set_enabled set_txid set_tc set_retry set_decode set_now set_partial set_wctl]).
+          cbn [app inflight inflight_req map fst snd ph queue blocked txid handles enabled tcount retry decode now partial wfail wdelay wpark wdl
+               set_ph set_chan set_handles set_enabled set_txid set_tc set_retry set_decode set_now set_partial set_wctl set_wpark set_wdl]).
 
 (* ---------- structural summary of a helper transition ----------
    Nothing is in flight afterwards, nothing is written or stamped, the tx counter is untouched, and
